@@ -222,7 +222,7 @@ def corr(ctx, oracle_only=False):
     if not oracle_only:
         kwnfull.refine_scenarios(ctx, res, PROP, [('alzr-loaded', ctx.n(80, 170)), ('alzr-small-grid', ctx.n(400, 1500)), ('alzr-loaded@rk4', ctx.n(50, 170)), ('nicral@2solves', ctx.n(40, 150)), ('alzr-small-grid@record', ctx.n(250, 800)), ('alzr-loaded-dilute', ctx.n(150, 500)), ('alzr-preloaded', ctx.n(25, 80))] +
                                  ([('almgsi-2phase-loaded', 200), ('nicral', 300), ('alzr-small-grid@2solves', 200)] if ctx.thorough else []),
-                                 oracles=('continuity', 'volume', 'recorded', 'grid', 'setuprow'))
+                                 oracles=('continuity', 'volume', 'recorded', 'grid', 'setuprow', 'budget'))
     vlib.finish_guard(res)
     return res
 
